@@ -230,6 +230,8 @@ class Session:
                 return tlv([(hap.T_STATE, b"\x02"), (hap.T_ERROR, b"\x02")]), False
             elif fault == "busy-error":
                 return tlv([(hap.T_STATE, b"\x02"), (hap.T_ERROR, b"\x07")]), False
+            elif fault == "auth-error-470":
+                return http_response(470, tlv8.encode([(hap.T_STATE, b"\x02"), (hap.T_ERROR, b"\x02")]), "application/pairing+tlv8"), False
             elif fault == "http-400":
                 return http_response(400, b"", None), False
             elif fault == "http-470":
@@ -244,6 +246,10 @@ class Session:
         if st == b"\x03" and self.pv:
             shared, acc_pub, ios_pub = self.pv
             self.m3_ok = hap.pv_check_m3(req, shared, acc_pub, ios_pub, self.acc.controllers)
+            if fault == "m4-auth-error-470":
+                return http_response(470, tlv8.encode([(hap.T_STATE, b"\x04"), (hap.T_ERROR, b"\x02")]), "application/pairing+tlv8"), False
+            if fault == "m4-auth-error-470-no-state":
+                return http_response(470, tlv8.encode([(hap.T_ERROR, b"\x02")]), "application/pairing+tlv8"), False
             if fault == "m4-auth-error" or not self.m3_ok:
                 return tlv([(hap.T_STATE, b"\x04"), (hap.T_ERROR, b"\x02")]), False
             if fault == "m4-http-400":
